@@ -49,7 +49,8 @@ check("C01", "exploration",
       "(depth 1; thorough depth 2) over asymmetric operands, on 16 input vectors; (b) every statement tree with <=4 nodes over "
       "assign/augassign/unpack/out/if/else/elif/while/for-in/break/continue/return (80 k programs quick, 189 k thorough) on 9 input "
       "vectors; (c) every signature x call-form product with <=3 plain/default/keyword-only parameters plus closures, nonlocal, "
-      "global, classes, inheritance, aliasing, unpacking forms. Each program is lowered by the real `lang` phase (in-process, one "
+      "global, classes, inheritance, aliasing, unpacking forms, evaluation time of defaults, side effects in unselected arms of "
+      "conditional expressions, evaluation order of operands / arguments / displays, copy-then-reuse. Each program is lowered by the real `lang` phase (in-process, one "
       "forked child per file of 120 functions) and the emitted GIR is executed by a reference interpreter of the documented GIR "
       "meaning and compared with CPython: output sequence and return value.",
       "Small scope: a defect needing a larger program is not seen. The GIR interpreter (mc/ref/girvm.py, DESIGN.md section 7) is "
@@ -59,16 +60,22 @@ check("C01", "exploration",
 
 check("C02", "exploration",
       "Every Core program with <=3 (thorough 4) statement nodes over int locals, + - *, comparisons, augmented assignment, if / else, "
-      "while, counted for, break, continue, return, out(e) - 2730 programs quick - rendered into Python, JavaScript, Java, C, PHP and Go, "
+      "while, counted for, break, continue, return, out(e) - 2730 programs quick - rendered into Python, JavaScript, TypeScript (the JavaScript text through its own frontend), Java, C, PHP and Go, "
       "lowered by the real lang phase (100 functions per file), and executed by ONE reference GIR interpreter (operator table per language "
       "family) on 9 input vectors; output sequence and return value must equal the reference semantics (CPython on the Python rendering). "
-      "Plus a vocabulary check: every emitted operation must be a key of the real def-use handler table. Plus four hand-written parallel "
+      "Plus a vocabulary check: every emitted operation must be a key of the real def-use handler table. Plus every C-family construct "
+      "program (mc/gen/cfamgen.py: ++ / --, compound assignment operators, unary minus, updates used as values, conditional operator, element "
+      "updates with constant and computed index, do-while, for with two init / update expressions, for without update, else-if chain, "
+      "switch with fall-through and with the default label in the middle; straight-line <=2 statements and every compound with bodies of "
+      "<=2 (thorough 3) statements; 6058 programs quick) in every frontend whose language has the construct, against CPython on a "
+      "desugared Python rendering. Plus four hand-written parallel "
       "families (strings with compound concatenation, nested records, arrays, 3-argument helper calls) in every frontend that can "
-      "express them, and one mixed-language invocation (-l c,java,javascript,php,python, 40 programs per frontend) in which every unit "
+      "express them, and one mixed-language invocation (-l c,java,javascript,php,python,typescript, 40 programs per frontend) in which every unit "
       "must lower as it does alone.",
       "The exhaustive part is ints only (no division); strings, records and arrays across languages only through the four hand-written "
-      "families (Python has them exhaustively in C01). TypeScript has no renderer here (C03 covers its frontend). The GIR interpreter "
-      "accepts condition_prebody on while_stmt (C frontend) as it does for for_stmt.",
+      "families and the element statements of the construct programs (Python has them exhaustively in C01). The construct programs go "
+      "beyond 'constructs common to all languages' and are judged under the statement's second sentence (nothing the analyses consume is "
+      "lost, renamed or reordered). TypeScript's expression_stmt marker rows are executed as no-ops (and reported once by the vocabulary part).",
       "bounded exhaustive program enumeration x frontends, differential execution against a reference semantics", "DESIGN.md §2 C02")
 
 check("C03", "exploration",
@@ -88,13 +95,15 @@ check("C03", "exploration",
 check("C04", "exploration",
       "Every control skeleton with <=2 compound nodes over if/else, while(/else), for-in(/else), C-style for, do-while, switch with "
       "fall-through, try/except/else/finally forms, break, continue, return, raise, nested def - rendered in Python (17.8 k methods) "
-      "and JavaScript, Java, C, PHP (quick: all 1-compound skeletons and the loop/switch x jump pairs, 8 k methods each; thorough: "
-      "all, 40 k each) - lowered by the real lang phase, CFGs built by the real P1 analysis; for every method every decision vector "
+      "and JavaScript, Java, C, PHP, Go (quick: all 1-compound skeletons and the loop/switch x jump pairs, 8 k methods each; thorough: "
+      "all, 112 k each); C-family kinds include for without update and a default label in the middle; skeletons are also rendered "
+      "with every test as a comparison, so that the statements computing the condition are part of the path (quick: 0/1-compound "
+      "skeletons) - lowered by the real lang phase, CFGs built by the real P1 analysis; for every method every decision vector "
       "of length <=6 (thorough 8) is executed by the reference GIR interpreter in oracle mode (each test, loop iteration, case match "
       "and 'did this try-body statement raise' consumes one bit) and the executed-statement sequence must be a CFG path from an entry "
       "node to the exit node; CFG nodes must belong to the method.",
       "Trace model (which rows count as executed, when loop headers are reached) is part of the trusted base, cross-validated by C01 "
-      "for Python. Edge kinds not compared. Go excluded (frontend emits `return` outside the vocabulary, see C02). Jumps inside a try "
+      "for Python. Edge kinds not compared. Jumps inside a try "
       "that has a finally clause are not generated.",
       "bounded exhaustive enumeration of programs x all branch-decision vectors, path-in-graph oracle", "DESIGN.md §2 C04")
 
@@ -115,21 +124,23 @@ check("C05", "exploration",
 check("C06", "exploration",
       "Every method with <=5 (thorough 6) statement nodes over definitions of x (each writing a unique constant), uses of x, if, "
       "if-else, while, for-in (nested <=2), break, continue, early return, with opaque conditions, plus 3/4/5-arm if-elif chains, deep then-chains and "
-      "definitions by conditional expressions (temporaries with two definitions) - 5.5 k methods / 12 k uses quick - "
+      "definitions by conditional expressions (temporaries with two definitions), definitions derived from the previous value, and every "
+      "8th file starting with a method that reads a free x - 5.5 k methods / 12 k uses quick - "
       "each an entry point of the real semantic pipeline. Because every definition writes a different constant, the value set the "
       "analysis holds for x at a use names the definitions it treats as reaching. (i) soundness: on every decision vector in which "
       "no loop body runs more than once, the value read at each use by the reference GIR interpreter is in the observed set; "
       "(ii) no dead definition: observed set within the classical reaching-definitions fixpoint on the exported CFG; (iii) loop-free "
-      "methods: observed == classical.",
+      "methods: observed == classical, an unknown state does not excuse a missing definition.",
       "Observed set = final P3 symbol/state space of the entry (what value consumers read), not the accumulated def-use edges. "
       "Single variable, integer constants.",
       "bounded exhaustive program enumeration x all decision vectors, dynamic reaching definitions and classical dataflow as oracles", "DESIGN.md §2 C06")
 
 check("C07", "exploration",
-      "Complete product of call patterns: 17 callee kinds (direct, constructor, method, inherited method, method via self, callback "
+      "Complete product of call patterns: 23 callee kinds (direct, constructor, method, inherited method, method via self, callback "
       "parameter, lambda callback, returned function, function stored in variable / field / list / dict, recursion, mutual recursion, "
-      "call chain, two call sites, calls in branch arms and loops) x 6 import forms (one file, from-import, module attribute, module "
-      "alias, from-import-as, package directory) x 4 caller positions (top level, function, method, nested function); each program is "
+      "call chain, two call sites, calls in branch arms and loops, callbacks passed by keyword) x 8 import forms (one file, from-import, "
+      "re-export, module attribute, module alias, from-import under real aliases, package directory, caller in a nested package naming "
+      "the library by its dotted path under aliases) x 4 caller positions (top level, function, method, nested function); each program is "
       "executed by CPython under sys.setprofile and analysed by the real `run` pipeline; every project-internal call event "
       "(caller, call line, callee), with methods identified by (file, def line), must be an edge on the computed call paths.",
       "One concrete execution per (deterministic) program. Entry = unit initialisers. Quick omits method / nested caller positions for "
@@ -164,17 +175,19 @@ check("C10", "exploration",
       "variants overwritten / other object / other field / other variable / other argument - x source kinds (call, method call, "
       "parameter, helper with early return, helper called from two sites; sources return fresh objects) x sink kinds (call, method "
       "call, second argument, keyword-argument callee and its cut variant) x placement (top level / function) x layout (one / two files); 632 programs quick. "
+      "Links include a helper writing a field that already exists and a one-sided overwrite; sink kinds include receiver sinks. "
       "Ground truth: CPython execution with a label-tracking value class, cross-checked against the construction tags. Required: "
-      "truth subset of the flows the real `run` pipeline reports (source line, sink line).",
+      "truth subset of the flows the real `run` pipeline finally reports (source line, sink line; taken at print_and_write_flows).",
       "One source and one sink site per program; explicit flows only; field-read sources and field/record-write sinks are not "
       "generated (their rule formats are not exercised). Small scope: chains of at most two links.",
       "bounded exhaustive program enumeration, dynamic ground truth (label tracking in CPython) vs reported flows", "DESIGN.md §2 C10")
 
 check("C11", "exploration",
       "Complete product: taint programs of the C10 generator (chains <=1 link incl. every broken-chain variant, all source/sink "
-      "kind combinations, both placements) x 12 rule-set variants (standard; no source / no sink / no rules; rules under a "
+      "kind combinations incl. varargs-cut and method-argument-cut, both placements) x 15 rule-set variants (standard; no source / no sink / no rules; rules under a "
       "non-matching language; unit_name matching / not; line_num matching / off by one for source and sink; sink rule naming "
-      "another argument position; rule set extended by unrelated rules) = 2130 real `run`s. Every reported flow is judged: it must "
+      "another argument position; a dotted sink rule name ending in the plain callee's name; sink rule restricted to the first sink "
+      "site; rule set extended by unrelated / same-name rules) = 1.4 k real `run`s quick. Every reported flow is judged: it must "
       "go from the program's only source statement to its only sink statement, only when a matching source+sink rule pair exists, "
       "only for programs whose sink argument depends on the source flow-insensitively (carry / overwritten, not cut); "
       "flows(R) must be contained in flows(R + extra rules / neutral restrictions).",
@@ -182,11 +195,12 @@ check("C11", "exploration",
       "bounded exhaustive enumeration of programs x rule sets, rule-matching model + construction-known dependence oracle", "DESIGN.md §2 C11")
 
 check("C12", "exploration",
-      "Base programs (12 taint programs of the C10 generator, 10 call-pattern programs of C07; thorough 18 + 16) x every single edit: "
+      "Base programs (12 taint programs of the C10 generator, the same taint program in two files, a parameter shadowing a later "
+      "function, 10 call-pattern programs of C07; thorough 18 + 16) x every single edit: "
       "blank line and comment line at every (quick: every 4th) line position, consistent rename of every function / class / local "
-      "that occurs, no-op statement at top-level positions, swap of every adjacent pair of independent top-level definitions, move of "
-      "a pure top-level function into a new file + import; 888 (base, edited) pairs of real `run`s in quick. No expected values: call "
-      "edges (by file + method name, with call line) and taint flows (source line, sink line) must agree under the edit's line / "
+      "that occurs (to a fresh name and to an underscore-prefixed one), no-op statement at top-level positions, swap of every adjacent pair of independent top-level definitions, move of "
+      "a pure top-level function into a new file + import, move behind a re-export; 1.4 k (base, edited) pairs of real `run`s in quick. No expected values: call "
+      "edges (by file + method name, with call line) and the finally reported taint flows (file + line of source and sink) must agree under the edit's line / "
       "name map.",
       "Single edits only (no sequences). Python frontend only. Bindings are compared through their effect on call edges and flows.",
       "exhaustive enumeration of (program, edit) pairs, metamorphic relation oracle", "DESIGN.md §2 C12")
